@@ -135,11 +135,11 @@ M = [
   "            self.connection.write_packet(encryption_response, force=True)",
   "            self.connection.write_packet(encryption_response)"),
  ('C10', 'cipher-installed-before-response', CONN,
-  "            # Forced because we'll have encrypted the connection by the time\n            # it reaches the outgoing queue\n            self.connection.write_packet(encryption_response, force=True)\n\n            # Enable the encryption\n            cipher = encryption.create_AES_cipher(secret)\n            encryptor = cipher.encryptor()\n            decryptor = cipher.decryptor()\n            self.connection.socket = encryption.EncryptedSocketWrapper(\n                self.connection.socket, encryptor, decryptor)",
-  "            cipher = encryption.create_AES_cipher(secret)\n            encryptor = cipher.encryptor()\n            decryptor = cipher.decryptor()\n            self.connection.socket = encryption.EncryptedSocketWrapper(\n                self.connection.socket, encryptor, decryptor)\n            self.connection.write_packet(encryption_response, force=True)"),
+  "                self.connection.write_packet(encryption_response, force=True)\n\n                # Enable the encryption\n                cipher = encryption.create_AES_cipher(secret)\n                encryptor = cipher.encryptor()\n                decryptor = cipher.decryptor()\n                self.connection.socket = encryption.EncryptedSocketWrapper(\n                    self.connection.socket, encryptor, decryptor)",
+  "                cipher = encryption.create_AES_cipher(secret)\n                encryptor = cipher.encryptor()\n                decryptor = cipher.decryptor()\n                self.connection.socket = encryption.EncryptedSocketWrapper(\n                    self.connection.socket, encryptor, decryptor)\n                self.connection.write_packet(encryption_response, force=True)"),
  ('C10', 'read-direction-not-encrypted', CONN,
-  "            self.connection.file_object = \\\n                encryption.EncryptedFileObjectWrapper(\n                    self.connection.file_object, decryptor)",
-  "            pass"),
+  "                self.connection.file_object = \\\n                    encryption.EncryptedFileObjectWrapper(\n                        self.connection.file_object, decryptor)",
+  "                pass"),
  ('C10', 'login-compression-not-enabled', CONN,
   "        elif packet.packet_name == \"set compression\":\n            self.connection.options.compression_threshold = packet.threshold\n            self.connection.options.compression_enabled = True\n\n        elif packet.packet_name == \"login plugin request\":",
   "        elif packet.packet_name == \"set compression\":\n            self.connection.options.compression_threshold = packet.threshold\n\n        elif packet.packet_name == \"login plugin request\":"),
@@ -285,8 +285,17 @@ M = [
 ]
 
 
-def scratch_copy():
+def scratch_copy(base=None):
+    """The library's sources in a fresh directory: the working tree of
+    /repo, or - for a recorded seeded change - the commit that change was
+    made against (later `fix:` commits may touch the same lines)."""
     d = tempfile.mkdtemp(prefix='dst-mut-')
+    if base:
+        r = subprocess.run('git -C %s archive %s minecraft | tar -x -C %s'
+                           % (REPO, base, d), shell=True,
+                           capture_output=True, text=True)
+        if r.returncode == 0 and os.path.isdir(os.path.join(d, 'minecraft')):
+            return d
     shutil.copytree(os.path.join(REPO, 'minecraft'),
                     os.path.join(d, 'minecraft'),
                     ignore=shutil.ignore_patterns('__pycache__'))
@@ -333,7 +342,7 @@ def run_seeded(only=None, runs=None):
         sid, prop = meta['id'], meta['property']
         if only and only not in (sid, prop):
             continue
-        d = scratch_copy()
+        d = scratch_copy(meta.get('base_commit'))
         try:
             patch = os.path.join(os.path.dirname(meta_p), 'patch.diff')
             r = subprocess.run(['patch', '-p1', '-s', '-i', patch], cwd=d,
